@@ -1233,6 +1233,8 @@ def _parse_args(H_c: Hamiltonian, H_n: Hamiltonian, dt: Coefficients, **kwargs) 
         raise TypeError(f'Expected a sequence of time steps, not {type(dt)}')
 
     dt = np.asarray(dt)
+    if dt.size == 0:
+        raise ValueError('Expected at least one time step')
     # Check the time argument for data type and monotonicity (should be increasing)
     if not np.isreal(dt).all():
         raise ValueError('Times dt are not (all) real!')
